@@ -118,7 +118,7 @@ func c02Decode(b []byte, tg c02target) c02res {
 			}
 		}
 		// canonical form: re-encode (may itself panic: that is a C18 matter, reported there)
-		repr := func() (s string) {
+		reprOnce := func() (s string) {
 			defer func() {
 				if r := recover(); r != nil {
 					s = "reencode-panic"
@@ -130,7 +130,20 @@ func c02Decode(b []byte, tg c02target) c02res {
 			enc := ttlv.NewTTLVEncoder()
 			enc.TagAny(tg.tag, ptr.Interface())
 			return hex.EncodeToString(enc.Bytes())
-		}()
+		}
+		repr := reprOnce()
+		// the decoded value is the caller's: rewriting the input buffer afterwards does not change it
+		for i := range b {
+			b[i] ^= 0xA5
+		}
+		again := reprOnce()
+		for i := range b {
+			b[i] ^= 0xA5
+		}
+		if again != repr && repr != "reencode-panic" && again != "reencode-panic" {
+			ch <- c02res{class: "ok", repr: repr, msg: "ALIASES-INPUT"}
+			return
+		}
 		ch <- c02res{class: "ok", repr: repr}
 	}()
 	select {
@@ -328,6 +341,10 @@ func driveC02(c *h.Ctx) error {
 			c.Count("outcome:" + r0.class)
 			cj := map[string]any{"input_hex": hx, "kind": in.kind, "target": tname, "observed": r0.class, "msg": r0.msg}
 			switch r0.class {
+			case "ok":
+				if r0.msg == "ALIASES-INPUT" {
+					c.Fail("C02/bin/decoded-value-aliases-input/"+tname, "the decoded value changed when the input buffer was overwritten after decoding (it shares memory with the input)", cj)
+				}
 			case "panic":
 				c.Fail("C02/bin/panic/"+tname, "UnmarshalTTLV panicked: "+r0.msg, cj)
 			case "hang":
